@@ -2,7 +2,7 @@ from check import Job
 EXPLANATION = 'the three filename sanitisers (CLI fetch lambda, Node::store_chunk lambda, security::sanitize_filename_hint) on inputs with every byte symbolic: the result has no separator, control or reserved character, is never . or .., is at most 255 bytes, and joined to a directory is a direct child'
 ASSUMPTIONS = ['the two lambdas are lifted textually from the current src/main.cpp and src/core/Node.cpp at check time and compiled inside the harness (the enclosing 5000-line main() / Node::store_chunk are not encoded); sanitize_filename_hint is lifted from security/StoreProof.cpp',
                'std::filesystem::path::filename() is the POSIX generic-format model of harness/fname.cpp (text after the last "/"); path component splitting is stubbed; the native replay uses the real libstdc++',
-               'inputs: optional prefix ("", "d/", "../", "/") followed by 0..3 (quick) / 0..4 (thorough) fully symbolic bytes (each byte forks about 11 ways through the character tests), plus 300-byte names with a symbolic window around the 255-byte cut and a symbolic 3-byte extension; iscntrl is the "C" locale predicate',
+               'inputs: optional prefix ("", "d/", "../", "/") followed by 0..3 (quick) / 0..4 (thorough) fully symbolic bytes (each byte forks about 11 ways through the character tests), plus 300-byte names whose bytes 254, 255 (both sides of the cut) and one extension byte are symbolic; iscntrl is the "C" locale predicate',
                'for sanitize_filename_hint only what the statement needs from it is asserted (no separator, not . or .., <= 255 bytes)']
 SN = {'STOREPROOF_SANITIZE_SNIPPET': ('src/security/StoreProof.cpp', 'sanitize_filename_hint'),
       'CLI_SANITIZE_SNIPPET': ('src/main.cpp', r're:auto sanitize_filename = \[\]\(const std::string& candidate\) \{'),
@@ -17,5 +17,5 @@ def jobs(tier):
                 r = reach if (n >= 1 and pk == 0) else []
                 out.append(Job('%s-len%d-p%d' % (tag, n, pk), 'fname.cpp', entry, [n, pk], reach=r, snippets=SN, redirect=R, timeout=1500, max_paths=2000000, bounds='prefix kind %d + %d symbolic bytes' % (pk, n)))
     for w in (0, 1, 2):
-        out.append(Job('long-%d' % w, 'fname.cpp', 'h_c31_long', [w], reach=['long'], snippets=SN, redirect=R, timeout=1500, bounds='300-byte name, symbolic bytes 252..257 and extension'))
+        out.append(Job('long-%d' % w, 'fname.cpp', 'h_c31_long', [w], reach=['long'], snippets=SN, redirect=R, timeout=1500, bounds='300-byte name, symbolic bytes 254, 255 and one extension byte'))
     return out
